@@ -128,7 +128,11 @@ func c18RunConfig(e *Enum, c c18Cfg) {
 	for i := range connIdx {
 		connIdx[i] = -1
 	}
-	o := RunSeq(vx.Options{MaxSteps: 200000}, func(env *vx.Env) {
+	window := c18Window
+	if c.PingFreq <= 0 {
+		window = 2 * time.Hour // "never": far beyond any default period a zero value might be replaced by
+	}
+	o := RunSeq(vx.Options{MaxSteps: 200000, Horizon: 6 * time.Hour}, func(env *vx.Env) {
 		cfg := c.build()
 		wantNick, wantIdent, wantName = cfg.Me.Nick, cfg.Me.Ident, cfg.Me.Name
 		cl := client.Client(cfg)
@@ -167,7 +171,7 @@ func c18RunConfig(e *Enum, c c18Cfg) {
 				vx.Quiesce()
 				_ = cl.Me()
 			}
-			vx.Sleep(c18Window)
+			vx.Sleep(window)
 			vc.EOF()
 			vx.Quiesce()
 		}
